@@ -17,6 +17,7 @@
  * Everything real is done with raw syscalls, so the shim never re-enters itself.
  */
 #define _GNU_SOURCE
+#include <dlfcn.h>
 #include <errno.h>
 #include <fcntl.h>
 #include <stdarg.h>
@@ -58,10 +59,16 @@ static int hexv(int c) {
     return -1;
 }
 
+static char *(*real_getenv)(const char *) = NULL;
+static char *env_of(const char *name) {
+    if (!real_getenv) real_getenv = (char *(*)(const char *))dlsym(RTLD_NEXT, "getenv");
+    return real_getenv ? real_getenv(name) : NULL;
+}
+
 static void init(void) {
     if (inited) return;
     inited = 1;
-    const char *r = getenv("XSG_SHIM_REPORT");
+    const char *r = env_of("XSG_SHIM_REPORT");
     if (r && *r) {
         int fd = (int)syscall(SYS_openat, AT_FDCWD, r, O_WRONLY | O_CREAT | O_APPEND | O_CLOEXEC, 0644);
         if (fd >= 0) {
@@ -70,7 +77,7 @@ static void init(void) {
             if (hi >= 0) { syscall(SYS_close, fd); report_fd = hi; } else report_fd = fd;
         }
     }
-    const char *p = getenv("XSG_FAULT_PLAN");
+    const char *p = env_of("XSG_FAULT_PLAN");
     if (!p) return;
     char *s = strdup(p);
     for (char *tok = strtok(s, ";"); tok; tok = strtok(NULL, ";")) {
@@ -256,4 +263,17 @@ ssize_t getrandom(void *buf, size_t len, unsigned int flags) {
     }
     rep("call getrandom len=%zu (real)\n", len);
     return syscall(SYS_getrandom, buf, len, flags);
+}
+
+/* Environment variables are an input too: every name the program asks for is reported, so that the harness can
+ * run the same world again with that variable set and demand the same outcome. */
+char *getenv(const char *name) {
+    static int busy = 0;
+    if (name && !busy && strncmp(name, "XSG_", 4) && strncmp(name, "LD_", 3)) {
+        busy = 1;
+        init();
+        rep("getenv %s\n", name);
+        busy = 0;
+    }
+    return env_of(name);
 }
